@@ -296,6 +296,10 @@ def main(argv):
         return do_replay(mod, replay)
 
     broken = []          # names of theorems / correspondences that no longer check
+    if getattr(mod, "FOREIGN_FIRST", False):
+        # this check's process starts with parsers / dumpers in configurations it does not use itself
+        # (common.foreign_configurations): whatever they leave behind is there for everything that follows
+        common.foreign_configurations()
     # -- 1. translator ---------------------------------------------------------------
     import translate
     try:
